@@ -456,8 +456,31 @@ func opCases(fn *ssa.Function) map[string]bool {
 	if fn == nil {
 		return out
 	}
+	isOpField := func(v ssa.Value) bool {
+		if f, ok := v.(*ssa.Field); ok && f.X == ssa.Value(fn.Params[0]) {
+			return true
+		}
+		if u, ok := v.(*ssa.UnOp); ok {
+			if _, ok := u.X.(*ssa.FieldAddr); ok {
+				return true
+			}
+		}
+		return false
+	}
 	for _, b := range fn.Blocks {
 		for _, ins := range b.Instrs {
+			// a table lookup keyed by the operator: the keys of the package level
+			// map are the cases
+			if lk, ok := ins.(*ssa.Lookup); ok && isOpField(lk.Index) {
+				if ld, ok := lk.X.(*ssa.UnOp); ok && ld.Op == token.MUL {
+					if g, ok := ld.X.(*ssa.Global); ok {
+						for _, k := range mapKeys(g) {
+							out[k] = true
+						}
+					}
+				}
+				continue
+			}
 			bo, ok := ins.(*ssa.BinOp)
 			if !ok || bo.Op != token.EQL {
 				continue
@@ -476,6 +499,42 @@ func opCases(fn *ssa.Function) map[string]bool {
 							_ = fa
 							out[s] = true
 						}
+					}
+				}
+			}
+		}
+	}
+	return out
+}
+
+// mapKeys: the constant string keys the package initialiser puts into the map
+// stored in global g.
+func mapKeys(g *ssa.Global) []string {
+	var out []string
+	if g.Pkg == nil {
+		return nil
+	}
+	init := g.Pkg.Func("init")
+	if init == nil {
+		return nil
+	}
+	var m ssa.Value
+	for _, b := range init.Blocks {
+		for _, ins := range b.Instrs {
+			if st, ok := ins.(*ssa.Store); ok && st.Addr == ssa.Value(g) {
+				m = st.Val
+			}
+		}
+	}
+	if m == nil {
+		return nil
+	}
+	for _, b := range init.Blocks {
+		for _, ins := range b.Instrs {
+			if mu, ok := ins.(*ssa.MapUpdate); ok && mu.Map == m {
+				if c, ok := mu.Key.(*ssa.Const); ok && c.Value != nil {
+					if s, ok := absint.ConstString(absint.Const{V: c.Value}); ok {
+						out = append(out, s)
 					}
 				}
 			}
